@@ -1,5 +1,6 @@
 import DaskModel.Lemmas.Repart
 import DaskModel.Lemmas.Truthful
+import DaskModel.Lemmas.RepartDivs
 import DaskModel.Props.C45
 /-! # C44 — repartitioning preserves rows, order and requested layout (theorems) -/
 namespace Dask.C44
@@ -126,16 +127,66 @@ theorem lower_npartitions (new old : Nat) (interp : Option (List Nat)) :
         · rename_i h; simp [kindCount, h]
         · rfl
 
-/-! ### RepartitionDivisions: full statement (validated by the tie, not yet proved) -/
+/-! ### RepartitionDivisions: rows, order, divisions -/
 
 open Dask.Divs (Truthful ValidDivs)
 
-/-- FULL STATEMENT for `repartition(divisions = b)` — rows, order and divisions exactly `b` -/
+/-- FULL STATEMENT for `repartition(divisions = b)` — rows, order and divisions exactly `b`, for frames whose
+    partitions are in index order (`KeySorted`; every frame dask builds with known divisions from sorted data).
+    Proved below for every layer that passes the certificate `layerOK` (`divisions_rows_order_truthful_partial`);
+    what is still missing for the full statement is "`divisionsLayer` only ever returns certified layers" — the
+    certificate is evaluated by the harness on every layer the real `_layer()` builds. -/
 def DivisionsFullStatement : Prop :=
   ∀ (α : Type) (key : α → Nat) (parts : List (List α)) (a b : List Nat) (force : Bool) (out : List (List α)),
-    ValidDivs a → ValidDivs b → Truthful key a parts →
+    ValidDivs a → ValidDivs b → Truthful key a parts → (∀ p ∈ parts, KeySorted key p) →
     repartitionDivisions key parts a b force = some out →
     out.flatten = parts.flatten ∧ Truthful key b out
+
+/-- the statement WITHOUT the index-order hypothesis on the partitions (as the build round wrote it) is false:
+    `boundary_slice` regroups the rows of a partition by key range, so a partition that is not in index order
+    comes out reordered (dask does the same: recorded as a finding of C44) -/
+theorem divisions_order_needs_sorted_partitions :
+    ¬ (∀ (parts : List (List (Nat × Nat))) (a b : List Nat) (out : List (List (Nat × Nat))),
+        ValidDivs a → ValidDivs b → Truthful (·.1) a parts →
+        repartitionDivisions (·.1) parts a b false = some out → out.flatten = parts.flatten) := by
+  intro h
+  have := h [[(2, 0), (1, 1)]] [0, 3] [0, 2, 3] [[(1, 1)], [(2, 0)]]
+    ⟨by decide, by decide, by decide⟩ ⟨by decide, by decide, by decide⟩
+    ⟨rfl, by decide, by
+      intro i p lo hi hp hlo hhi r hr
+      cases i with
+      | zero =>
+        simp only [List.getElem?_cons_zero, List.getElem?_cons_succ, Option.some.injEq, Nat.zero_add] at hp hlo hhi
+        subst hp; subst hlo; subst hhi
+        simp only [List.mem_cons, List.not_mem_nil, or_false] at hr
+        rcases hr with rfl | rfl <;> simp
+      | succ i => simp at hp⟩
+    (by decide)
+  revert this
+  decide
+
+/-- **rows, order and truthful divisions — `_partial`: certified layers.** For every frame that is truthful for
+    the old divisions `a` with partitions in index order, every new division vector `b` (non-decreasing), and every
+    layer `L` that `RepartitionDivisions._layer` returns and that passes the decidable certificate `layerOK a b L`
+    (each piece used exactly once and in order; the slices of each old partition form a gap-free chain over its key
+    range; each piece fits the key range of the new partition it is assigned to): the layer evaluates without a
+    missing key, the output rows are the input rows in the same order, and the output is truthful for `b` — i.e.
+    `repartition(divisions=b)` yields exactly divisions `b`. -/
+theorem divisions_rows_order_truthful_partial {α : Type} (key : α → Nat) (parts : List (List α))
+    (a b : List Nat) (force : Bool) (L : DLayer)
+    (ht : Truthful key a parts) (hsorted : ∀ p ∈ parts, KeySorted key p)
+    (hb : b.Pairwise (· ≤ ·)) (hL : divisionsLayer a b force = some L) (hok : layerOK a b L = true) :
+    ∃ out, repartitionDivisions key parts a b force = some out ∧ out.flatten = parts.flatten ∧
+      Truthful key b out := by
+  have hb1 : b ≠ [] := by
+    intro he
+    have := divisionsLayer_count a b force L hL
+    rw [he] at this
+    simp at this
+  obtain ⟨out, h1, h2, h3⟩ := layer_sound key parts a b L ht hsorted hb hb1 hok
+  refine ⟨out, ?_, h2, h3⟩
+  unfold repartitionDivisions
+  rw [hL]; exact h1
 
 /-- **`repartition(divisions = d)` has exactly `len(d) − 1` partitions** whenever the layer is built
     (first half of "yields exactly divisions d": `_divisions()` returns `d` itself) -/
@@ -172,6 +223,12 @@ example : toMoreWith (fun len k => some ((List.range k).map (fun i => i * len / 
     gives `[0,0,1,1,2,3,4,5]`, which collapses to 6 entries — the repaired `_lower` picks ToMore -/
 example : lowerKind 7 1 (some [0, 0, 1, 1, 2, 3, 4, 5]) = .more := by decide
 example : lowerKind 4 2 (some [0, 2, 5, 7, 9]) = .divisions [0, 2, 5, 7, 9] := by decide
+-- non-vacuity of `divisions_rows_order_truthful_partial`: certified layers (plain, force beyond both ends with a dummy
+-- partition, single last division in old and new)
+example : (divisionsLayer [0, 3, 3, 5] [0, 2, 4, 5] false).map (layerOK [0, 3, 3, 5] [0, 2, 4, 5]) = some true := by decide
+example : (divisionsLayer [5, 10] [0, 2, 10, 12] true).map (layerOK [5, 10] [0, 2, 10, 12]) = some true := by decide
+example : (divisionsLayer [0, 4, 4] [0, 2, 4, 4] false).map (layerOK [0, 4, 4] [0, 2, 4, 4]) = some true := by decide
+example : KeySorted (fun (r : Nat × Nat) => r.1) [(3, 2), (5, 3), (5, 4)] := by unfold KeySorted; decide
 example : repartitionDivisions (fun (r : Nat × Nat) => r.1) [[(0, 0), (1, 1)], [], [(3, 2), (5, 3), (5, 4)]]
     [0, 3, 3, 5] [0, 2, 4, 5] false = some [[(0, 0), (1, 1)], [(3, 2)], [(5, 3), (5, 4)]] := by decide
 
